@@ -315,3 +315,28 @@ Definition parse_decls (n fuel : nat) (toks : list tk) : dres (list (N * ty) * l
   | DErr e => DErr e
   | DOk (b, r) => decl_list n fuel b r
   end.
+
+(* a function declaration up to and including the ')' of its parameter list:
+   base type, declarator of the return type around `name ( parameters )` *)
+Definition fn_decl (fuel : nat) (toks : list tk)
+  : dres (N * ty * list (ty * option N) * bool * list tk) :=
+  match parse_base toks with
+  | DErr e => DErr e
+  | DOk (b, r) =>
+      match cvptr fuel b r with
+      | DErr e => DErr e
+      | DOk (d, r1) =>
+          if is_fn d then DErr 3
+          else
+            match r1 with
+            | t :: a :: r2 =>
+                if is T_NAME t && is LP a then
+                  match params fuel r2 with
+                  | DOk (ps, va, r3) => DOk (kval t, d, ps, va, r3)
+                  | DErr e => DErr e
+                  end
+                else DErr 4
+            | _ => DErr 4
+            end
+      end
+  end.
